@@ -295,6 +295,11 @@ func onlyBytes(fm *Frame) error {
 	defer func() { <-valuesDone }()
 
 	_, err := io.Copy(fm.ByteOutput(), fm.InputFile())
+	if err != nil {
+		// Keep draining the input, so that the upstream is not blocked on a
+		// full pipe and can close the value channel.
+		_, _ = io.Copy(blackholeWriter{}, fm.InputFile())
+	}
 	return err
 }
 
@@ -311,13 +316,16 @@ func onlyValues(fm *Frame) error {
 
 	// Forward values.
 	out := fm.ValueOutput()
+	var errOut error
 	for v := range fm.InputChan() {
-		err := out.Put(v)
-		if err != nil {
-			return err
+		// After an output error, keep draining the input, so that the
+		// upstream is not blocked on a full channel and can close the byte
+		// input.
+		if errOut == nil {
+			errOut = out.Put(v)
 		}
 	}
-	return nil
+	return errOut
 }
 
 type blackholeWriter struct{}
